@@ -22,7 +22,7 @@ from opsim.sched import SeqTracer
 from opsim.util import call, weighted, quiet
 
 from operon_ai.healing.chaperone_loop import ChaperoneLoop
-from operon_ai.healing.regenerative_swarm import RegenerativeSwarm, WorkerMemory
+from operon_ai.healing.regenerative_swarm import RegenerativeSwarm, WorkerMemory, SimpleWorker
 from operon_ai.organelles.chaperone import Chaperone
 from operon_ai.organelles.mitochondria import Mitochondria
 from operon_ai.organelles.nucleus import Nucleus
@@ -71,7 +71,8 @@ EXPECT_PROBES = ("heal_degraded_at_limit", "heal_healed_at_limit", "heal_valid_f
                  "tools_limit_zero", "tools_unknown_forever", "enumerated_case", "swarm_reentrant_supervise",
                  "swarm_reentrant_after_death", "swarm_reentrant_sub_succeeded", "tools_blank_final_answer",
                  "tools_blank_final_with_nucleus_retries", "heal_second_call_on_same_loop",
-                 "tools_second_call_on_same_nucleus")
+                 "tools_second_call_on_same_nucleus", "heal_generator_raised_builtin_type",
+                 "swarm_worker_keeps_no_memory", "swarm_worker_edits_its_memory", "tools_large_payload")
 
 MARKERS = ("SUCCESS", "SOLVED", "COMPLETE", "DONE", "FINISHED")
 SCOPE = None
@@ -92,6 +93,11 @@ HEAL_OUT = {
     "M": '{"price": 1.0}',
     "Q": "{'price': 2.0, 'item': 'tea',}",
 }
+# exceptions a generator raises from its own body (not an arity problem: it accepts one or two arguments)
+GEN_RAISES = {"R": lambda: RuntimeError("generator failed"),
+              "T": lambda: TypeError("can only concatenate str (not \"NoneType\") to str"),
+              "A": lambda: AttributeError("'NoneType' object has no attribute 'strip'"),
+              "K": lambda: KeyError("error"), "Z": lambda: ValueError()}
 SWARM_OUT = {"s": "still thinking...", "M": "SUCCESS: solved it", "d": "all done here", "e": "",
              "f": "Finished? not really, but the word is there"}
 
@@ -108,7 +114,7 @@ def _table():
     t = []
     for lim in range(5):
         for chap in ("tagged", "plain"):
-            for s in _scripts("IWVERU"):
+            for s in _scripts("IWVERUT"):
                 for tail in (("last", "cycle") if len(s) >= 2 else ("last",)):
                     t.append(("heal", lim, chap, s, tail))
     for regen in range(5):
@@ -140,10 +146,10 @@ def _heal_plan(lim, chap, script, tail, decay=0.1, prompt="make a quote", strate
 
 
 def _swarm_plan(regen, steps, script, thr=0.5, mode="global", summ="hints", supervise=1, tail="last", delegations=2,
-                timeout=None):
+                timeout=None, worker="recording", hints_mut=False):
     return {"config": {"kind": "swarm", "max_regenerations": regen, "max_steps": steps, "threshold": thr,
                        "mode": mode, "summ": summ, "supervise": supervise, "tail": tail, "delegations": delegations,
-                       "timeout": timeout},
+                       "timeout": timeout, "worker": worker, "hints_mut": hints_mut},
             "fakes": {"worker": list(script)}}
 
 
@@ -171,7 +177,7 @@ def gen(rng, tier, i):
     if kind == "heal":
         # bias: first success exactly at / just after the limit, or never
         n = rng.randint(0, 8)
-        alpha = "IIWWEUUUUMQR" + "VXL"
+        alpha = "IIWWEUUUUMQRTTAKZ" + "VXL"
         shape = weighted(rng, [(3, "never"), (3, "at_limit"), (2, "after_limit"), (2, "free")])
         if shape == "free":
             s = [rng.choice(alpha) for _ in range(n)]
@@ -181,8 +187,8 @@ def gen(rng, tier, i):
             s = [rng.choice(bad) for _ in range(min(k, 8))]
             if shape != "never":
                 s.append(rng.choice("VVXL"))
-            if rng.random() < 0.15 and s:
-                s[rng.randrange(len(s))] = "R"
+            if rng.random() < 0.25 and s:
+                s[rng.randrange(len(s))] = rng.choice("RTTTAKZ")      # the generator's own body raises a built-in type
         return _heal_plan(lim, rng.choice(["tagged", "tagged", "plain"]), s,
                           weighted(rng, [(3, "last"), (2, "cycle")]),
                           decay=rng.choice([0.1, 0.1, 0.0, 0.5, 1.0]),
@@ -210,7 +216,10 @@ def gen(rng, tier, i):
         return _swarm_plan(lim, steps, s, thr=rng.choice([0.9, 0.5, 0.5, 0.0, 1.0, 0.6]), mode=mode,
                            summ=weighted(rng, [(3, "hints"), (3, "empty"), (0.5, "raise")]),
                            supervise=weighted(rng, [(3, 1), (1, 2)]), tail=weighted(rng, [(3, "last"), (2, "cycle")]),
-                           delegations=rng.choice([1, 2, 2, 3]), timeout=rng.choice([None, None, 0.0, 5.0]))
+                           delegations=rng.choice([1, 2, 2, 3]), timeout=rng.choice([None, None, 0.0, 5.0]),
+                           worker=weighted(rng, [(3, "recording"), (2.5, "stateless"), (2, "simple"), (2.5, "simple_pruning"),
+                                                 (1.5, "simple_clearing")]),
+                           hints_mut=rng.random() < 0.3)
     shape = weighted(rng, [(3, "forever"), (3, "final_at_limit"), (2, "free")])
     if shape == "free":
         s = [rng.choice("TK2FRE3") for _ in range(rng.randint(0, 8))]
@@ -223,7 +232,8 @@ def gen(rng, tier, i):
                        auto=rng.random() < 0.9, tools=weighted(rng, [(5, "both"), (1, "none")]),
                        provider=weighted(rng, [(6, "tools"), (1, "plain_only")]),
                        nuc_retries=rng.choice([None, None, 0, 1, 3, 5]), energy=rng.choice([10, 10, 0, 1]),
-                       repeat=weighted(rng, [(3, 1), (1, 2)]), tool_ret=rng.choice([42, 42, None, ""]),
+                       repeat=weighted(rng, [(3, 1), (1, 2)]),
+                       tool_ret=rng.choice([42, 42, None, "", "big7k", "big7k", "big20k", "boom_empty"]),
                        inloop_final=rng.choice(["done", "done", "", " "]))
 
 
@@ -237,7 +247,8 @@ def simplify(plan):
     for key, small in (("tail", "last"), ("chap", "tagged"), ("decay", 0.1), ("strategies", None),
                        ("prompt", "make a quote"), ("threshold", 0.5), ("mode", "global"), ("summ", "hints"),
                        ("supervise", 1), ("auto", True), ("tools", "both"), ("provider", "tools"), ("repeat", 1),
-                       ("misfold", None), ("delegations", 1), ("timeout", None), ("final", "final answer"),
+                       ("misfold", None), ("delegations", 1), ("timeout", None), ("worker", "recording"),
+                       ("hints_mut", False), ("final", "final answer"),
                        ("nuc_retries", None), ("energy", 10), ("tool_ret", 42), ("inloop_final", "done")):
         if key in cfg and cfg[key] != small:
             yield {**plan, "config": {**cfg, key: small}}
@@ -313,10 +324,12 @@ def _run_heal(plan, k, tr):
         if n + 1 >= bound + 2:
             raise SimBudget("generator")
         sym = _sym(script, cfg["tail"], n, "I")
-        if sym == "R":
+        if sym in GEN_RAISES:
             k.fault("collab_raise")
             k.probe("heal_generator_raised")
-            raise RuntimeError("generator failed")
+            if sym != "R":
+                k.probe("heal_generator_raised_builtin_type")
+            raise GEN_RAISES[sym]()
         k.fault("collab_adversarial_value")
         if sym == "E":
             return error_context if error_context is not None else prompt
@@ -336,6 +349,7 @@ def _run_heal(plan, k, tr):
 
 
 def _heal_once(k, tr, cfg, loop, chap, calls, tokens, bound, site):
+    first_fold = len(chap.traces)
     out = call(loop.heal, cfg["prompt"], tracer=tr)
     n = len(calls)
     k.ev("heal", [out.brief()[0], n])
@@ -350,6 +364,10 @@ def _heal_once(k, tr, cfg, loop, chap, calls, tokens, bound, site):
     for j in range(1, n):
         ctx, folds_before = calls[j]
         errs = [t for t in chap.traces[calls[j - 1][1]:folds_before] if t is not None]
+        if not errs and folds_before == calls[j - 1][1]:
+            # two generator calls without a validation in between (the first one must have raised and been swallowed):
+            # the call is still a retry of whatever failed last in this heal()
+            errs = [t for t in chap.traces[first_fold:folds_before] if t is not None][-1:]
         if not errs:
             continue
         if isinstance(ctx, str) and any(t in ctx for t in errs):
@@ -404,15 +422,25 @@ def _heal_once(k, tr, cfg, loop, chap, calls, tokens, bound, site):
 
 
 # --------------------------------------------------------------------------- swarm
+class _Rec:
+    """What the harness knows about one spawned worker (kept outside the worker object)."""
+
+    def __init__(self, wid):
+        self.id = wid
+        self.steps = 0
+        self.outputs = []
+
+
 class _Worker:
+    """Written against the Worker protocol (id, memory, step), not derived from SimpleWorker."""
+
     def __init__(self, wid):
         self.id = wid
         self.memory = WorkerMemory()
-        self.steps = 0
         self.step_fn = None
 
     def step(self, task):
-        return self.step_fn(self, task)
+        return self.step_fn(self.memory, task)
 
 
 def _run_swarm(plan, k, tr):
@@ -440,7 +468,9 @@ def _run_swarm(plan, k, tr):
             return True
         return False
 
-    def step(w, task):
+    wkind = cfg.get("worker", "recording")
+
+    def step(w, memory, task, record):
         w.steps += 1
         state["gstep"] += 1
         k.ev("step", [w.id, w.steps])
@@ -476,7 +506,8 @@ def _run_swarm(plan, k, tr):
             outp = "ping" if state["gstep"] % 2 else "pong"
         else:
             outp = SWARM_OUT[sym]
-        w.memory.add_attempt(task, outp)
+        if record:
+            memory.add_attempt(task, outp)
         w.outputs.append(outp)
         return outp
 
@@ -486,11 +517,30 @@ def _run_swarm(plan, k, tr):
         k.ev("spawn", [str(name), len(hints) if hasattr(hints, "__len__") else -1, fr["depth"]])
         if fr["spawned"] >= wbound + 2:
             raise SimBudget("worker factory")
-        w = _Worker(name)
-        w.step_fn = step
-        w.outputs = []
-        fr["workers"].append(w)
-        return w
+        if cfg.get("hints_mut") and isinstance(hints, list):
+            hints.append(f"seen by {name}")          # the list handed over is the caller's to keep or change
+        rec = _Rec(name)
+        fr["workers"].append(rec)
+        if wkind in ("recording", "stateless"):
+            # protocol workers: one keeps its memory faithfully, the other keeps none at all
+            w = _Worker(name)
+            w.step_fn = lambda memory, task: step(rec, memory, task, wkind == "recording")
+            if wkind == "stateless":
+                k.probe("swarm_worker_keeps_no_memory")
+            return w
+
+        def work(task, memory):         # SimpleWorker records the attempt itself after this returns
+            outp = step(rec, memory, task, False)
+            if wkind == "simple_pruning":            # bounded context window
+                del memory.task_history[:-1]
+                del memory.output_history[:-1]
+                k.probe("swarm_worker_edits_its_memory")
+            elif wkind == "simple_clearing" and rec.steps % 2 == 0:     # "changes strategy": forgets everything
+                memory.task_history.clear()
+                memory.output_history.clear()
+                k.probe("swarm_worker_edits_its_memory")
+            return outp
+        return SimpleWorker(id=name, work_function=work)
 
     def summarizer(memory):
         if cfg["summ"] == "raise":
@@ -563,6 +613,7 @@ class _Provider:
         self.final, self.inloop_final = final, inloop_final
         self.cwt = 0
         self.plain = 0
+        self.order = []          # every provider call of the current transcribe_with_tools, by kind
 
     def is_available(self):
         return True
@@ -572,6 +623,7 @@ class _Provider:
 
     def complete(self, prompt, config=None):
         self.plain += 1
+        self.order.append("p")
         self.k.ev("provider.complete", self.plain)
         if self.plain >= 1 + 2:
             raise SimBudget("plain completions")
@@ -579,6 +631,7 @@ class _Provider:
 
     def _cwt(self, prompt, tools, config=None):
         self.cwt += 1
+        self.order.append("t")
         self.k.ev("provider.tools", self.cwt)
         if self.cwt >= self.bound + 2:
             raise SimBudget("tool rounds")
@@ -611,7 +664,14 @@ def _run_tools(plan, k, tr):
         runs[0] += 1
         exec_rounds.add(prov.cwt)
         k.ev("tool", ["calc", prov.cwt])
-        return cfg.get("tool_ret", 42)
+        ret = cfg.get("tool_ret", 42)
+        if ret in ("big7k", "big20k"):               # a page / file / query dump
+            k.probe("tools_large_payload")
+            return ("row %d | " % runs[0]) + "lorem ipsum dolor sit amet " * (260 if ret == "big7k" else 741)
+        if ret == "boom_empty":
+            k.fault("collab_raise")
+            raise KeyError()                          # an exception whose str() is empty
+        return ret
 
     def boom(**kw):
         runs[0] += 1
@@ -633,6 +693,7 @@ def _run_tools(plan, k, tr):
         if rep_no:
             k.probe("tools_second_call_on_same_nucleus")
         prov.cwt = prov.plain = 0
+        del prov.order[:]
         exec_rounds.clear()
         runs[0] = 0
         if not _tools_once(k, tr, cfg, script, lim, site, prov, nuc, m, exec_rounds, runs, blank_final):
@@ -653,7 +714,14 @@ def _tools_once(k, tr, cfg, script, lim, site, prov, nuc, m, exec_rounds, runs, 
         k.violation("tool_rounds", "over_budget_tool_executions", site,
                     f"tools ran in {len(exec_rounds)} rounds, max_iterations = {lim}")
     if prov.plain > 1:
-        k.violation("tool_rounds", "more_than_one_final_completion", site, f"{prov.plain} plain completions")
+        k.violation("tool_rounds", "more_than_one_final_completion", site,
+                    f"{prov.plain} plain completions; provider calls in order: {''.join(prov.order)}")
+    elif "p" in prov.order and "t" in prov.order[prov.order.index("p"):]:
+        # the one plain completion the budget allows is the *final* one: nothing tool-enabled may follow it
+        k.violation("tool_rounds", "plain_completion_inside_the_loop", site,
+                    f"provider calls in order: {''.join(prov.order)} (t = tool-enabled, p = plain)")
+    if len(prov.order) > lim + 1 and prov.cwt <= lim and prov.plain <= 1:
+        k.violation("tool_rounds", "over_budget_provider_calls", site, f"{len(prov.order)} provider calls, budget {lim + 1}")
     if cfg["tools"] == "both" and cfg["provider"] == "tools":
         if prov.cwt >= lim:
             k.nontrivial = True
